@@ -44,6 +44,8 @@ def check(tier):
         mc_cfg = "Privileges_mc.cfg" if quick else "Privileges_mc4.cfg"
         mc = pool.submit(lib.tlc, "Privileges", mc_cfg, workers=3 if quick else 6, timeout=1500 if quick else 7200,
                          coverage=not quick, heap="6g")
+        # thorough: the dynamic privileges (both, own flags) exhaustively in their own small vocabulary
+        mcd = None if quick else pool.submit(lib.tlc, "Privileges", "Privileges_mcdyn.cfg", workers=3, timeout=7200, coverage=True, heap="6g")
         dump = pool.submit(lib.dump_transitions, "Privileges", "Privileges_dump.cfg", os.path.join(sc, "dump.ndjson"),
                            workers=2 if quick else 4, timeout=1500)
         # 1a. histories steered into the state where a session's privilege set merges two entries for ONE table
@@ -116,10 +118,15 @@ def check(tier):
         # 5. the model run
         r = mc.result()
         lib.tlc_ok(r, "Privileges/" + mc_cfg)
+        rdyn = None
         if not quick:
-            z = r.coverage_zero()
+            z = [a for a in r.coverage_zero() if a != "DynStep"]      # (no dynamic privileges in mc4: they are in mcdyn)
             if z:
                 raise lib.Inconclusive("vacuous: actions never taken in %s: %s" % (mc_cfg, z))
+            rdyn = mcd.result()
+            lib.tlc_ok(rdyn, "Privileges/Privileges_mcdyn.cfg")
+            if rdyn.coverage_zero():
+                raise lib.Inconclusive("vacuous: actions never taken in Privileges_mcdyn.cfg: %s" % rdyn.coverage_zero())
         rows = sum(s["rows"] for s in sts)
         allowed = sum(s["allowed"] for s in sts)
         nontrivial = srep["nontrivial"] + drep["nontrivial"]
@@ -138,6 +145,7 @@ def check(tier):
             "evaluations": rows,
             "distinct_nontrivial": nontrivial,
             "rule": "evaluations = probe outcomes judged by TLC against Allowed (expected allow: %d); non-trivial = a probe (class, object) of one matrix whose outcome differs between at least two users" % allowed,
+            "model_check_dynamic_privileges": None if rdyn is None else {"config": "Privileges_mcdyn.cfg", "states": rdyn.distinct, "transitions": rdyn.generated, "depth": rdyn.depth, "tlc_wall_s": round(rdyn.wall, 1)},
             "model_check": {"config": mc_cfg, "depth": r.depth, "tlc_wall_s": round(r.wall, 1)},
             "simulated": {"config": sim_cfg, "histories": srep["extra"]["histories"], "depth": depth,
                           "steps": srep["cases"], "matrices": srep["extra"]["matrices"], "by_action": srep["extra"]["by_action"]},
